@@ -45,6 +45,8 @@ type Scenario struct {
 	Recreate bool
 	// RollbackInBatch sets the rollouts.kruise.io/rollback-in-batch annotation on the Rollout
 	RollbackInBatch bool
+	// HPA: the user has a HorizontalPodAutoscaler targeting the workload (blue-green releases disable and restore it)
+	HPA bool
 	// TRCR: traffic is not configured in the Rollout's strategy but by a separate TrafficRouting custom resource
 	// ("tr", weight 20%) that the Rollout references through the rollouts.kruise.io/trafficrouting annotation
 	TRCR bool
@@ -219,6 +221,17 @@ func (sc *Scenario) Build(w *World) error {
 					BackendObjectReference: gatewayv1beta1.BackendObjectReference{Group: &group, Kind: &kind, Name: AppName, Port: &port}, Weight: &weight}}},
 			}}}}
 		if err := w.Raw.Create(ctx, rt); err != nil {
+			return err
+		}
+	}
+	if sc.HPA {
+		hpa := &unstructured.Unstructured{Object: map[string]interface{}{
+			"apiVersion": "autoscaling/v2", "kind": "HorizontalPodAutoscaler",
+			"metadata": map[string]interface{}{"namespace": ns, "name": AppName},
+			"spec": map[string]interface{}{"minReplicas": int64(1), "maxReplicas": int64(10),
+				"scaleTargetRef": map[string]interface{}{"apiVersion": "apps/v1", "kind": sc.Kind, "name": AppName}},
+		}}
+		if err := w.Raw.Create(ctx, hpa); err != nil {
 			return err
 		}
 	}
